@@ -251,9 +251,14 @@ Inert(fn, s) ==
 HasCc(cs) == \E k \in 1..Len(cs) : IsCc(cs[k])
 ValidUtf8(in) == Utf8Seq(Runes(in)) = in
 
-Lossless(fn, in, out) ==
+(* the statement itself: no exemption beyond the two it names (invalid UTF-8; html_attr's control characters).  U+0000 under css
+   violates it whatever the escaper does - CSS has no way to write U+0000, \0 decodes to U+FFFD - which the trace acceptor reports
+   (a recorded known finding) and the reference model sets aside *)
+LosslessStrict(fn, in, out) ==
   \/ ~ValidUtf8(in)
   \/ (fn = "html_attr" /\ HasCc(Runes(in)))       \* replaced deliberately (statement)
-  \/ (fn = "css" /\ \E k \in 1..Len(in) : in[k] = 0) \* CSS cannot represent U+0000 at all (\0 decodes to U+FFFD)
   \/ Decode(fn, out) = in
+Lossless(fn, in, out) ==
+  \/ (fn = "css" /\ \E k \in 1..Len(in) : in[k] = 0) \* CSS cannot represent U+0000 at all (\0 decodes to U+FFFD)
+  \/ LosslessStrict(fn, in, out)
 =============================================================================
